@@ -54,6 +54,23 @@ theorem C16_maps_combinations (nested zipped : List (κ × Nat)) :
 (first key slowest), the zipped index runs inside (by the shape of `refMaps`) -/
 theorem C16_maps_order (lens : List Nat) : (product lens).Pairwise lexLt := product_sorted lens
 
+/-- closed form of the order: row `r` pairs the mixed-radix digits of `r / Z` over the nested
+lengths (first key most significant, last key fastest) with the zipped index `r % Z`, where `Z`
+is the number of zipped steps — nested product outside, zip inside -/
+theorem C16_maps_row (nested zipped : List (κ × Nat)) (r : Nat) (hr : r < rowCount nested zipped) :
+    (refMaps nested zipped)[r]? =
+      some ((nested.map (·.1)).zip (digits (nested.map (·.2)) (r / zipCount zipped))
+        ++ zipped.map fun kz => (kz.1, r % zipCount zipped)) :=
+  getElem?_refMaps nested zipped r hr
+
+/-- for ANY key lists (duplicates, a key in both loops, empty lists, `None`) every entry of every
+index map the code returns is an index into the list of its key: the injected get-item nodes
+never raise `IndexError` -/
+theorem C16_maps_in_range (data : κ → DLen) (nested zipped : Option (List κ)) (maps : List (Dict κ))
+    (h : indexMapsOf data nested zipped = .ok maps) (m : Dict κ) (hm : m ∈ maps) (k : κ) (i : Nat)
+    (hki : (k, i) ∈ m) : ∃ n, data k = .len n ∧ i < n :=
+  indexMapsOf_in_range data nested zipped maps h m hm k i hki
+
 /-- the same through the front end that reads the lengths off the data -/
 theorem C16_maps_of_spec (data : κ → DLen) (nk zk : List κ) (f : κ → Nat)
     (hd : ∀ k ∈ nk ++ zk, data k = .len (f k))
@@ -64,7 +81,7 @@ theorem C16_maps_of_spec (data : κ → DLen) (nk zk : List κ) (f : κ → Nat)
 
 /-- error branches: no keys at all, or every loop empty / containing an empty list ⇒ the
 documented `ValueError`s, no maps -/
-theorem C16_maps_errors (data : κ → DLen) (nested zipped : List (κ × Nat))
+theorem C16_maps_refusals (data : κ → DLen) (nested zipped : List (κ × Nat))
     (hn : nested = [] ∨ 0 ∈ nested.map (·.2)) (hz : zipped = [] ∨ 0 ∈ zipped.map (·.2)) :
     indexMaps nested zipped = .error .allZero ∧
     indexMapsOf data none none = .error .noKeys ∧
@@ -88,7 +105,7 @@ in product-outside / zip-inside order, each with its looped values, and `bodyFn`
 looped ⊕ broadcast values under the mapped column names — in either output form -/
 theorem C16_table (s : Spec κ ν) (st : St κ ν) (cur : Cur κ ν) (order : List Nat) (v : Valid s)
     (g : Good s cur) (hc : Covers order (combos s cur).length)
-    (hmiss : ¬ (s.useCache ∧ st.cached = some cur)) :
+    (hmiss : isHit s st cur = false) :
     (run s st cur order).2 = .ok ∧ (run s st cur order).1.outs = refOuts s cur := by
   rw [run_good s st cur order v g hc hmiss]; exact ⟨rfl, rfl⟩
 
@@ -130,6 +147,13 @@ theorem C16_rerun (s : Spec κ ν) (v : Valid s) (hs hs' : List (Cur κ ν × Li
     rw [hlen k (hks k hk)]
   rw [e s.iterOn (fun k hk => by simp [hk]), e s.zipOn (fun k hk => by simp [hk])]
 
+omit [DecidableEq ν] in
+/-- ... and their number has the closed form  inputs + rows + Σ nested lengths + |zipped|·min +
+collectors (rows + 1 for a table, outputs + looped inputs for lists) -/
+theorem C16_child_count (s : Spec κ ν) (nested zipped : List (κ × Nat)) (g : Guard nested zipped) :
+    (s.bodyInputs.map Child.input ++ freshChildren s (refMaps nested zipped)).length
+      = childCount s nested zipped := length_freshChildren_ref s nested zipped g
+
 end
 
 /-! ## Non-vacuity: a concrete layout (two iterated, one zipped, one broadcast input; renamed
@@ -137,8 +161,11 @@ column), concrete inputs, a history with an empty list and a shrinking re-run -/
 
 def exSpec (df : Bool) : Spec String (List Nat) :=
   { bodyInputs := ["a", "b", "c", "d"], bodyDefault := fun _ => none, outputs := ["o"],
-    iterOn := ["a", "b"], zipOn := ["c"], asDf := df, useCache := true,
+    iterOn := ["a", "b"], zipOn := ["c"], asDf := df, useCache := true, gateCache := false, clearOnFail := false,
     colmap := fun _ => "O", bodyFn := fun _ args => 99 :: args.flatten, listVal := List.flatten }
+
+def exSpec0 : Spec String (List Nat) :=
+  { exSpec true with bodyInputs := ["a", "b", "c", "d", "e"], iterOn := ["a", "b"], zipOn := ["c", "d"] }
 
 def exCur (a b c : List (List Nat)) : Cur String (List Nat) :=
   [("a", .many a), ("b", .many b), ("c", .many c), ("d", .one [7])]
@@ -148,6 +175,11 @@ example : indexMaps [("a", 2), ("b", 1)] [("c", 2)] =
     .ok [[("a", 0), ("b", 0), ("c", 0)], [("a", 0), ("b", 0), ("c", 1)],
          [("a", 1), ("b", 0), ("c", 0)], [("a", 1), ("b", 0), ("c", 1)]] := by rfl
 example : indexMaps [("a", 0)] [("c", 2)] = .ok [[("c", 0)], [("c", 1)]] := by rfl
+example : rowCount [("a", 2), ("b", 3)] [("c", 2), ("d", 5)] = 12 := by decide
+example : digits [2, 3] (7 / 2) = [1, 0] ∧ 7 % 2 = 1 := by decide
+/-- the docstring example of `for_node`: 48 children, 12 after the re-run with shorter lists -/
+example : childCount (exSpec0) [("a", 2), ("b", 4)] [("c", 2), ("d", 3)] = 48 ∧
+    childCount (exSpec0) [("a", 1), ("b", 1)] [("c", 2), ("d", 1)] = 12 := by decide
 
 theorem exValid (df : Bool) : Valid (exSpec df) := by
   cases df <;> exact ⟨by decide, by decide, by decide⟩
@@ -194,10 +226,13 @@ end PwVerif.C16
 #print axioms PwVerif.C16.C16_maps_length
 #print axioms PwVerif.C16.C16_maps_combinations
 #print axioms PwVerif.C16.C16_maps_order
+#print axioms PwVerif.C16.C16_maps_row
+#print axioms PwVerif.C16.C16_maps_in_range
 #print axioms PwVerif.C16.C16_maps_of_spec
-#print axioms PwVerif.C16.C16_maps_errors
+#print axioms PwVerif.C16.C16_maps_refusals
 #print axioms PwVerif.C16.C16_maps_zero_fallthrough
 #print axioms PwVerif.C16.C16_table
 #print axioms PwVerif.C16.C16_history
 #print axioms PwVerif.C16.C16_rebuild
 #print axioms PwVerif.C16.C16_rerun
+#print axioms PwVerif.C16.C16_child_count
